@@ -7,6 +7,93 @@ NOTES = ('All checks are bounded symbolic model checking of the real code (go/ss
          'exit 1 = a natively reproduced, unlisted violation; exit 2 = infrastructure failure (no VIOLATION line). See DESIGN.md.')
 
 CHECKS = {
+    'C01': dict(
+        text='Bounded symbolic execution of the real Encoder and decoder back to back: every Destination method with one fully arbitrary float32 operand '
+             '(both resolutions), runs of every length around the 16/32 repeat limits, mixed verb sequences, and the converse direction (decoder-accepted '
+             'streams transcoded through an Encoder, including streams that end inside a path). Number-level facts are the C08 lemmas; this check decides the plumbing.',
+        note='Bounds: one arbitrary operand per call (others concrete short-form values), mixed sequences of K verbs (quick 2, thorough 3), transcoding of L arbitrary '
+             'instruction bytes (quick 2, thorough 3). Longer programs only by composition with C03/C08/C10. Trusted: executor, solvers.',
+    ),
+    'C06': dict(
+        text='PARTIAL. Decided: a zero/NaN radius arc is exactly one LineTo to the mapped endpoint (bit exact, all inputs; found the unmapped endpoint defect), the relative '
+             'form is the absolute form measured from the pen (relational), relative degenerate arcs in the exact-real reading. NOT decided: segment count, end point, '
+             'points on the ellipse, sweep/large-arc extent of non-degenerate arcs (trigonometric identities over uninterpreted sin/cos/acos are out of reach).',
+        note='Non-degenerate arcs are only compared concretely (testdata/arcs.ivg, bit for bit against the native code) in the translator self-test. '
+             'math.Sin/Cos/Acos are uninterpreted stubs; amd64 float->int semantics.',
+    ),
+    'C07': dict(
+        text='One-step inductive check that Encoder and Renderer selector read-backs agree modulo 64 after any styling call from any agreeing pair of states '
+             '(found the missing increment tracking), plus bounded pipelines (K symbolic styling calls + a path; selector writes + incrementing writes + Generator.SetGradient) '
+             'through Renderer directly and through Encoder->Decode->Renderer with identical rasteriser logs and paints; DestinationLogger forwards every method once.',
+        note='Bounds: K styling calls (quick 2, thorough 3) with symbolic selectors/adj/incr/colours and short-form numbers; 0..2 incrementing writes before the gradient helper. '
+             'fmt.Printf is a no-op stub. Trusted: executor, solvers.',
+    ),
+    'C10': dict(
+        text='One-step inductive check of the Encoder against a 4-state specification automaton from an arbitrary state satisfying a representation invariant that the same '
+             'step re-establishes: every method, adj 0..255, incr, every colour kind, every pending verb; sticky first error; Bytes errs iff automaton in error; '
+             'zero-value vs Reset(default) observational equality (found LOD (0,0) vs (0,+Inf)).',
+        note='One inductive step covers histories of any length provided the invariant is inductive (checked) and holds initially (zero value, Reset). Float arguments concrete '
+             '(the protocol logic does not read them). Trusted: executor, solvers.',
+    ),
+    'C04': dict(
+        text='One-step symbolic execution of the real Renderer from an arbitrary register-machine state (64+64 symbolic registers, palette, selectors as arbitrary bytes, LOD) '
+             'against a reference VM written from the specification: register writes, Reset, StartPath paint selection (flat / gradient / disabled, LOD test on the raster height), '
+             'gradient configuration read back through the GradientConfig accessors, and no rasteriser activity on a disabled path.',
+        note='Bounds: gradients with at most `stops` stops (quick 2, thorough 4); colour resolution is delegated to the C09 lemmas. Trusted: executor, solvers, reference VM.',
+    ),
+    'C05': dict(
+        text='Bit-exact symbolic execution of the 16 non-arc drawing verbs, StartPath, the close-and-move operations and ClosePathEndPath from an arbitrary geometric state '
+             '(viewBox, rectangle size and origin, pen, sub-path start, smooth-curve memory all symbolic) against a reference pen/affine-map model; rasteriser calls must match bit for bit.',
+        note='Bounds: sequences of K verbs (quick 1, thorough 2) from an arbitrary state; the reference uses the same formula shape s*(v + -min) so equivalent refactorings may become inconclusive, never violations. Arcs are C06.',
+    ),
+    'C11': dict(
+        text='decode() executed symbolically with a recording printer and a recording destination on arbitrary instruction bytes: byte columns reproduce the input, each column <= 4 bytes, '
+             'one instruction line per delivered operation, printed numbers/colours are the delivered ones; Decode and Disassemble return the same error on fully arbitrary input.',
+        note='Bounds: L arbitrary instruction bytes after an empty metadata section (quick 5, thorough 7); fully arbitrary inputs of up to W bytes (quick 7, thorough 10) for the verdict. '
+             'fmt rendering of values to text is a trusted stub (values are compared, not text); arc flag/angle operand lines are not compared.',
+    ),
+    'C13': dict(
+        text='Metadata sections as arbitrary bytes (count, lengths, MIDs, contents) against the reference parser; palette chunks of every format with arbitrary colour bytes and any '
+             'declared length; viewBox chunks with coordinates of freely chosen widths; the coordinate codec is monotone and keeps finite values finite for all float32 pairs.',
+        note='Bounds: section length L (quick 8, thorough 10), n explicit palette entries (quick 3, thorough 6). Repeated / decreasing MIDs are a stated do-not-care region. Trusted: executor, solvers, reference parser.',
+    ),
+    'C14': dict(
+        text='Option lists of length <= K (WithPalette with a fully symbolic palette, WithColorAt with a symbolic colour of four colour models) folded over the suggested palette; '
+             'inputs unmodified; a non-premultiplied user entry paints opaque black through a real Renderer (found the missing sanitisation).',
+        note='Bounds: K = 2 (quick) / 3 (thorough); WithColorAt indices 0, 1, 63. Trusted: executor, solvers.',
+    ),
+    'C15': dict(
+        text='Spread.Clamp bit-exactly over float64 |x| < 2^31 for all four modes (found the odd-integer reflect defect); Gradient.At against the specification as a function of the offset '
+             '(stop colours exact, end colours, transparent cases) and of the pixel (offset = matrix applied to the pixel centre, distance for radial), relationally; '
+             'pixel-to-gradient matrix and interpolation in the exact-real reading.',
+        note='Bounds: 2 stops with concrete offsets in quick, 2-3 symbolic stops in thorough; interpolation premultiplication only in exact reals (bit-exact float64 monotonicity times out). Trusted: executor, solvers.',
+    ),
+    'C16': dict(
+        text='PARTIAL, repository side only: vec.Rasterizer.Draw applies the configured operator to the first Draw and source-over afterwards; the Renderer issues origin-independent '
+             'rasteriser calls and rectangle-relative paints; indirect colours store what their direct twins store from any state. No obligation examines a pixel.',
+        note='Assumed, not checked: same calls => same pixels; translation covariance and clipping of golang.org/x/image/vector (assembly, outside go/ssa); power-of-two scale invariance (clause b).',
+    ),
+    'C17': dict(
+        text='Encoder.Reset from an arbitrary dirty state (any mode, error, pending run, selectors, LOD, flags, buffer contents) is field-equal to a fresh Encoder after the same Reset, '
+             'and K further arbitrary calls + Bytes give identical bytes/errors; Bytes is idempotent; Renderer.Reset from an arbitrary dirty state renders a well-formed program like a fresh Renderer.',
+        note='Bounds: K = 1 (quick) / 2 (thorough) calls after Reset. Field equality after Reset is the inductive argument for longer programs. Determinism: the executor found no read of clock/random/map order on any path.',
+    ),
+    'C18': dict(
+        text='PARTIAL (sequential footprint instead of schedules): every package-level variable and every shared input is a read-only region during symbolic execution of decode / '
+             'disassemble / encode / render entry points; two pipelines interleaved operation by operation produce what each produces alone. No shared writable location implies no data race under the Go memory model.',
+        note='Schedules as such are not explored; fmt, bytes.Buffer, x/image/vector are outside the model and trusted to be goroutine-safe. Bounds: L arbitrary instruction bytes (quick 3, thorough 5).',
+    ),
+    'C19': dict(
+        text='SetGradient into a recorder whose calls are replayed on the specification machine (registers named by the gradient value hold stops and matrix, selectors restored), '
+             'rejection conditions for stop counts {0..3,57,58,59,64,255,256,257,300} and every CSEL byte on recorder / Renderer / Encoder (found the uint8 wrap and the unreduced selector), '
+             'linear / circular / elliptical geometry in the exact-real reading.',
+        note='Geometry is decided as algebra over the reals (rounding error of the matrices not modelled: rounded-real does not terminate, 12 error terms with cancellation). Trusted: executor, solvers.',
+    ),
+    'C20': dict(
+        text='PARTIAL: per-verb transform dispatch of both front ends bit-exactly for every verb; Concat as matrix composition in exact reals; SetPathData / ParsePathData on path strings of '
+             'fixed skeletons (every verb letter, implicit repetition, zM join) whose digits are symbolic, with text->float parsing an uninterpreted function of the token bytes; ParsePath opacity/circle logic.',
+        note='Not decided: that decimal text denotes the float it is parsed to (strconv / fmt scanning are stubs), XML handling, skeletons beyond the enumerated ones. Bounds: symbolic digits per string (quick 2/4, thorough 4/12).',
+    ),
     'C02': dict(
         text='Bounded symbolic execution of the real decoder on fully symbolic byte windows: every index, slice bound, nil dereference, '
              'division and explicit panic on every feasible path is an obligation, the input slice is a read-only region, and the '
